@@ -26,9 +26,24 @@ let al_op t = match split ':' t with
 let al_obs ((n, l), h) = Printf.sprintf "%d[%s]%s" (int_of_nat n) (ints l) (match h with Some v -> string_of_int v | None -> "-")
 let al_deep (((st, sz), cap), nulls) =
   Printf.sprintf "%d,%d,%d,%s" (int_of_nat st) (int_of_nat sz) (int_of_nat cap) (String.concat "" (List.map b01 nulls))
+(* Z of the extracted model -> int *)
+let rec int_of_pos = function XH -> 1 | XO p -> 2 * int_of_pos p | XI p -> 2 * int_of_pos p + 1
+let int_of_z = function Z0 -> 0 | Zpos p -> int_of_pos p | Zneg p -> - (int_of_pos p)
+(* the secondary read paths of the model (begin()[i], mid[i-m], reverse walk, end()-begin(), begin()+size()==end()) must show the
+   same list as the primary one; a difference is appended to the model stream as a flag (it then fails against the spec) *)
+let al_ra_flags main ra =
+  List.map2 (fun m r -> match m, r with
+    | C11_ok ((n, l), _), C11_ok ((((a, b), c), dist), e) ->
+      (if a <> l then "!model-begin[]" else "") ^ (if b <> l then "!model-mid[]" else "") ^ (if c <> l then "!model-reverse" else "")
+      ^ (if int_of_z dist <> int_of_nat n then "!model-dist" else "") ^ (if not e then "!model-end" else "")
+    | C11_ok _, _ -> "!model-ra-UB"
+    | _, _ -> "") main ra
 let run_al n ops =
   let ops = List.map al_op ops and nn = nat_of_int n in
-  join (List.map (show_res al_obs) (c11_al_run 0 nn true (c11_al_empty, None) ops)),
+  (let main = c11_al_run 0 nn true (c11_al_empty, None) ops in
+   let ra = c11_al_run_ra 0 nn true (c11_al_empty, None) ops in
+   let fl = if List.length ra = List.length main then al_ra_flags main ra else List.map (fun _ -> "!model-ra-len") main in
+   join (List.map2 (fun m f -> show_res al_obs m ^ f) main fl)),
   join (List.map (show_opt al_obs) (c11_als_run ([], None) ops)),
   join (List.map (show_res al_obs) (c11_alo_run 0 nn (c11_alo_empty, None) ops)),
   join (List.map (show_res al_deep) (c11_al_run_deep 0 nn true (c11_al_empty, None) ops))
@@ -44,12 +59,14 @@ let sl_op t = match split ':' t with
   | _ -> failwith ("bad sl op " ^ t)
 let sl_obs ((((((na, ea), la), ((nb, eb), lb)), e), ne)) =
   Printf.sprintf "%d,%s[%s] %d,%s[%s] %s%s" (int_of_nat na) (b01 ea) (ints la) (int_of_nat nb) (b01 eb) (ints lb) (b01 e) (b01 ne)
+(* plus where the ModifyIterator stands after the op: _ = none used, - = endModify(), else the value *)
+let sl_obs2 (o, p) = sl_obs o ^ " it=" ^ (match p with None -> "_" | Some None -> "-" | Some (Some v) -> string_of_int v)
 let run_sl ops =
   let ops = List.map sl_op ops in
   let w0 = (c11_sl_empty 0, c11_sl_empty 0) in
-  join (List.map (show_res sl_obs) (c11_sl_run 0 (=) true w0 ops)),
-  join (List.map (show_opt sl_obs) (c11_sls_run (=) ([], []) ops)),
-  join (List.map (show_res sl_obs) (c11_sl_run 0 (=) false w0 ops)),
+  join (List.map (show_res sl_obs2) (c11_sl_run2 0 (=) true (w0, None) ops)),
+  join (List.map (show_opt sl_obs2) (c11_sls_run2 (=) (([], []), None) ops)),
+  join (List.map (show_res sl_obs2) (c11_sl_run2 0 (=) false (w0, None) ops)),
   join (List.map (show_res (fun ((a, b), (c, d)) -> b01 a ^ b01 b ^ " " ^ b01 c ^ b01 d)) (c11_sl_run_deep 0 true w0 ops))
 
 (* ---------------- lru *)
@@ -94,8 +111,10 @@ let rvs_obs ((((oa, ob), ((e, l1), l2)), r)) =
 let run_rv n ops =
   let ops = List.map rv_op ops and nn = nat_of_int n in
   let w0 = ((c11_rv_empty 0 nn, c11_rv_empty 0 nn), None) in
-  let m = join (List.map (show_res rv_obs) (c11_rv_run 0 (=) (<) nn w0 ops)) in
-  m, join (List.map (show_opt rvs_obs) (c11_rvs_run (=) (<) nn (([], []), None) ops)), m, "-"
+  let d4 f (((a, b), c), e) = " " ^ f a ^ f b ^ f c ^ f e in
+  let sb = function Some b -> b01 b | None -> "*" in
+  let m = join (List.map (show_res (fun (o, q) -> rv_obs o ^ d4 b01 q)) (c11_rv_run2 0 (=) (<) nn w0 ops)) in
+  m, join (List.map (show_opt (fun (o, q) -> rvs_obs o ^ d4 sb q)) (c11_rvs_run2 (=) (<) nn (([], []), None) ops)), m, "-"
 
 (* ---------------- BitSetVector *)
 let bop = function "and" | "andb" -> BvAnd | "or" | "orb" -> BvOr | _ -> BvXor
@@ -109,9 +128,10 @@ let bv_op t = let n s = nat_of_int (ios s) in match split ':' t with
   | [("andb" | "orb" | "xorb") as o; i; k] -> BvOpBlock (bop o, n i, n k)
   | ["shl"; i; k] -> BvShl (n i, n k) | ["shr"; i; k] -> BvShr (n i, n k)
   | _ -> failwith ("bad bv op " ^ t)
-let bv_obs ((bl, c), cm) =
-  Printf.sprintf "%d[%s]c%d m%s" (List.length bl) (String.concat "," (List.map string_of_bits bl)) (int_of_nat c)
+let bv_obs (((bl, c), cm), qs) =
+  Printf.sprintf "%d[%s]c%d m%s q%s" (List.length bl) (String.concat "," (List.map string_of_bits bl)) (int_of_nat c)
     (String.concat "," (List.map (fun x -> string_of_int (int_of_nat x)) cm))
+    (String.concat "," (List.map (fun (((((cn, a), n), l), e), nb) -> Printf.sprintf "%d%s%s%s%s~%s" (int_of_nat cn) (b01 a) (b01 n) (b01 l) (b01 e) (string_of_bits nb)) qs))
 let run_bv bs ops =
   let ops = List.map bv_op ops and bs = nat_of_int bs in
   let m = join (List.map (show_res bv_obs) (c11_bv_run bs [] ops)) in
